@@ -1,6 +1,6 @@
 (* C08/Proofs.v — umbrella: re-exports the lemma files and proves the instance obligations over
    the schema that is regenerated from the current tree on every run (Generated/OtlpProto.v). *)
-From Verif Require Export Common.Base C08.Model C08.Proofs1 C08.Proofs2 C08.Proofs3 C08.Proofs4 C08.Proofs5 C08.Proofs6 C08.Proofs7 C08.Json C08.Proofs8 C08.Proofs9 C08.Proofs10 C08.Proofs11 C08.Proofs12 C08.Proofs14 C08.T1Tie.
+From Verif Require Export Common.Base C08.Model C08.Proofs1 C08.Proofs2 C08.Proofs3 C08.Proofs4 C08.Proofs5 C08.Proofs6 C08.Proofs7 C08.Json C08.Proofs8 C08.Proofs9 C08.Proofs10 C08.Proofs11 C08.Proofs12 C08.Proofs14 C08.Proofs15 C08.T1Tie.
 From Verif Require Import Generated.OtlpProto Generated.C08JsonDecoders.
 Local Open Scope N_scope.
 
